@@ -42,7 +42,8 @@ def run(ctx, factor):
             addr += g.int(1, 8)
         if 1 <= shape <= 6 and insts:
             insts = insts + insts                   # sections restarting at the same addresses: identical matched texts
-        o = patdiff.observe(ctx, doc, insts, modes=("bool", "all", "first"))
+        with_addr = g.chance(0.35)
+        o = patdiff.observe(ctx, doc, insts, modes=("bool", "all", "first") + (("alladdr",) if with_addr else ()))
         usable = patdiff.correspondence(ctx, o)
         tags = ["realisations=%d" % k] + (["long-listing"] if shape == 0 else ["repeated-section"] if 1 <= shape <= 6 else [])
         if usable:
@@ -50,6 +51,15 @@ def run(ctx, factor):
             tags.append("spec-matches=%d" % min(nm, 5))
             patdiff.spec_verdict(ctx, o)
             patdiff.spec_scan(ctx, o)
+            spec = o["model"][1]["spec"]
+            if with_addr and not (any(n == 0 for _, n in spec["scan"]) or spec.get("nullable")):
+                # the same scan reported as addresses only: the address of the FIRST instruction of every match, in scan order
+                kept = o["model"][1]["kept"]
+                exp = [kept[i][0] for i, _ in spec["scan"]]
+                if o["impl_alladdr"] != ("ok", exp):
+                    rep.violate("scan-addresses", patdiff.case_of(o), {"addresses": exp}, {"addresses": o["impl_alladdr"]},
+                                model_agrees_with_spec=(o["model"][1]["allAddr"] == exp))
+                tags.append("address-only")
         rep.case(patdiff.case_of(o), usable, tags=tags)
         if rep.violations and factor > 1:
             return
